@@ -314,6 +314,9 @@ impl EdgeDeletionEntry {
             r is Ok ==> forall|i: int| 0 <= i < old(nodes)@.len() ==> node_tombstone_written(#[trigger] old(nodes)@[i]),
 //@ end
 
+pub open spec fn edge_removal_executed(e: EdgeDeletionEntry) -> bool {
+    stmt_executed::<(&Uid, &String, &String, &Uid, &i64)>((&e.src, &e.src_entity, &e.label, &e.dest, &e.cdate))
+}
 //@ extract src/database/edge.rs :: impl EdgeDeletionEntry / fn delete_all
 //@ result r
 //@ attr #[verifier::loop_isolation(false)]
@@ -325,12 +328,16 @@ impl EdgeDeletionEntry {
                 forall|i: int| 0 <= i < it.index@ ==> marked(*daily_log, (#[trigger] old(edges)@[i]).room_id, old(edges)@[i].src_entity@, spec_day(old(edges)@[i].deletion_date)),
                 // [received_edge_tombstones_recorded_so_far]{C11}
                 forall|i: int| 0 <= i < it.index@ ==> edge_tombstone_written(#[trigger] old(edges)@[i]),
+                // [received_reference_deletions_bound_so_far]{C02,C11}
+                forall|i: int| 0 <= i < it.index@ ==> edge_removal_executed(#[trigger] old(edges)@[i]),
 //@ spec
         ensures
             // [received_edge_tombstones_mark_their_day] every reference tombstone applied from a peer marks the day it enters
             r is Ok ==> forall|i: int| 0 <= i < old(edges)@.len() ==> marked(*final(daily_log), (#[trigger] old(edges)@[i]).room_id, old(edges)@[i].src_entity@, spec_day(old(edges)@[i].deletion_date)),
             // [received_edge_tombstones_keep_marks]
             marks_superset(*old(daily_log), *final(daily_log)),
+            // [received_reference_deletion_removes_the_reference_the_record_names]{C02,C11} for every reference deletion record received, the statement that removes the reference was executed, bound to the source, source entity, label, destination and creation date the record names - the reference the author's right was checked for, and no other (the statement text is SQL and is assumed)
+            r is Ok ==> forall|i: int| 0 <= i < old(edges)@.len() ==> edge_removal_executed(#[trigger] old(edges)@[i]),
             // [received_edge_deletion_always_recorded]{C11} every reference deletion record received from a peer is written to the deletion log, whether or not the reference is stored here
             r is Ok ==> forall|i: int| 0 <= i < old(edges)@.len() ==> edge_tombstone_written(#[trigger] old(edges)@[i]),
 //@ end
